@@ -53,6 +53,7 @@ type RealNode struct {
 	MonViol       func(prop, sig, what string) // set by the scenario: report a monitor violation
 	reqCancelled  bool                        // the context of the last RequestNewBlockProposal was cancelled when it returned
 	AheadUntil    uint64                      // a node sync accepted by the main loop has cancelled every context below this height
+	CurProposalView *uint64                   // view of the PREPREPARE / NEW_VIEW being delivered (for the proposer monitor)
 
 	// observations for monitors
 	Commits   []commitObs
@@ -131,6 +132,16 @@ func (u *recBlockUtils) RequestNewBlockProposal(ctx context.Context, blockHeight
 func (u *recBlockUtils) ValidateBlockProposal(ctx context.Context, blockHeight primitives.BlockHeight, memberId primitives.MemberId, block interfaces.Block, blockHash_ primitives.BlockHash, prevBlock interfaces.Block) error {
 	n := u.n
 	n.addOut(fmt.Sprintf("val:%d:%s:%s", uint64(blockHeight), n.enc.block(block), hexid(blockHash_)))
+	// C18: the proposer named to the consumer is the leader of the proposal's view: the member at position (view mod committee size)
+	if n.CurProposalView != nil && n.MonViol != nil {
+		ms := n.W.Committee(uint64(blockHeight))
+		if len(ms) > 0 {
+			want := ms[*n.CurProposalView%uint64(len(ms))].Id
+			if string(want) != string(memberId) {
+				n.MonViol("C18", "proposer-mismatch", fmt.Sprintf("node %d asked its consumer to validate the proposal of view %d naming proposer %x; the leader of that view is %x", n.Idx, *n.CurProposalView, []byte(memberId), []byte(want)))
+			}
+		}
+	}
 	did := u.during(ctx)
 	ok := false
 	fb, isFake := block.(*FakeBlock)
